@@ -58,3 +58,42 @@ def size(xs):
 
 def first_item(box):
     return box.items[0]
+
+
+class HCtx:
+    def __init__(self):
+        self.modified = set()
+        self.rows = {}
+
+
+def alias_add(ctx, x):
+    modified = ctx.modified
+    modified.add(x)
+    return len([x])
+
+
+def alias_then_direct(ctx, x, y):
+    modified = ctx.modified
+    ctx.modified.add(y)
+    modified.add(x)
+    return x in modified and y in modified
+
+
+def alias_rebind_field(ctx, x):
+    modified = ctx.modified
+    ctx.modified = set()
+    modified.add(x)
+    return 0
+
+
+def alias_loop(ctx, xs):
+    modified = ctx.modified
+    for x in xs:
+        modified.add(x)
+    return 0
+
+
+def alias_item(ctx, k, x):
+    row = ctx.rows[k]
+    row.append(x)
+    return 0
